@@ -701,15 +701,13 @@ int parse_instruction_powerpc(AsmContext *asm_context, char *instr)
             return -1;
           }
 
-          temp = (operands[2].value >> 26) & 0x3f;
-
-          if (temp != 0 && temp != 0x3f)
+          if (operands[0].value < -(1 << 25) || operands[0].value > (1 << 25) - 1)
           {
             print_error_range(asm_context, "Address", -(1 << 25), (1 << 25) - 1);
             return -1;
           }
 
-          opcode = table_powerpc[n].opcode | (operands[2].value & ((1 << 26) - 1));
+          opcode = table_powerpc[n].opcode | (operands[0].value & ((1 << 26) - 1));
 
           add_bin32(asm_context, opcode, IS_OPCODE);
 
